@@ -20,6 +20,7 @@ import GambitV.Gen.PySigList
 import GambitV.Gen.PyParams
 import GambitV.Gen.PyCluster
 import GambitV.Gen.PyGetitem
+import GambitV.Gen.PyIo
 import GambitV.Gen.PySigListGetitem
 import GambitV.Model.Params
 import GambitV.Model.Bulk
